@@ -111,6 +111,31 @@ func c16Run(tp *core.Tape, e *core.Env) {
 			return
 		}
 		e.Probe("manager_with_history")
+		if tp.Bool("then_reload_whose_callback_fails", 1, 3) {
+			// a later reload of other content that a component refuses (Prometheus does not reload, the
+			// injected file cannot be written): whatever the manager then holds, the hash it publishes
+			// must be the hash of the content it publishes - that pair is what "in sync" is judged on
+			fail := false
+			m.AddReloadCallbacks(func(*prom.ConfigInfo) error {
+				if fail {
+					return fmt.Errorf("component refuses the configuration (injected)")
+				}
+				return nil
+			})
+			fail = true
+			other := "global:\n  scrape_interval: 44s\nscrape_configs:\n- job_name: later\n  static_configs:\n  - targets: [\"b:2\"]\n"
+			if err := m.ReloadFromRaw([]byte(other)); err == nil {
+				e.Undecided("the failing callback did not fail the reload")
+				return
+			}
+			ci := m.ConfigInfo()
+			want, herr := hashOf(string(ci.RawContent))
+			e.Probe("reload_with_failing_callback")
+			if herr == nil && ci.ConfigHash != want {
+				e.Violate("hash-not-of-held-content", "after=refused-reload", "after a reload that a callback refused, the manager publishes content that hashes to %q together with hash %q", want, ci.ConfigHash)
+			}
+			return
+		}
 		if h := m.ConfigInfo().ConfigHash; h != hA {
 			e.Violate("depends-on-history", "past="+strings.Join(past, "+"), "a manager that went through %v computes hash %q for content a fresh manager hashes as %q", past, h, hA)
 		}
